@@ -168,6 +168,8 @@ Fixpoint notry (s : stmt expr) : bool :=
   | SBlock l => nl l
   | SIf _ s1 s2 => notry s1 && match s2 with Some s2 => notry s2 | None => true end
   | SWhile _ b => nl b
+  | SDoWhile b _ => nl b
+  | SFor _ _ _ b => nl b
   | SLabelled _ s => notry s
   | STry _ _ _ => false
   end.
@@ -175,6 +177,11 @@ Definition notry_list (l : list (stmt expr)) : bool := forallb notry l.
 Lemma notry_block l : notry (SBlock l) = notry_list l.
 Proof. simpl. induction l as [|x xs IH]; simpl; [reflexivity|]. now rewrite IH. Qed.
 Lemma notry_while e l : notry (SWhile e l) = notry_list l.
+Proof. simpl. induction l as [|x xs IH]; simpl; [reflexivity|]. now rewrite IH. Qed.
+
+Lemma notry_dowhile e l : notry (SDoWhile l e) = notry_list l.
+Proof. simpl. induction l as [|x xs IH]; simpl; [reflexivity|]. now rewrite IH. Qed.
+Lemma notry_for i t u l : notry (SFor i t u l) = notry_list l.
 Proof. simpl. induction l as [|x xs IH]; simpl; [reflexivity|]. now rewrite IH. Qed.
 
 Definition sagree (k : Z) (ra rb : st3) : Prop :=
@@ -244,6 +251,217 @@ Proof.
     + destruct (mem t labels); [|exact H2]. eapply extends_trans; [exact H2|]. apply (owhile_extends exec Hext).
 Qed.
 
+(* ---- do-while and for, through a shared "what the loop does with the body's outcome" ---- *)
+Definition loop_tail (labels : list label) (again : state -> list label -> oval val -> st3)
+           (r : st3) (acc : oval val) : st3 :=
+  match r with
+  | (s1, L1, ONorm o) =>
+     match o with
+     | OBrk t => if mem t labels then (s1, L1, ONorm acc) else (s1, L1, ONorm o)
+     | OCont t => if mem t labels then again s1 L1 acc else (s1, L1, ONorm o)
+     | ORet _ => (s1, L1, ONorm o)
+     | OEmpty => again s1 L1 acc
+     | OVal _ => again s1 L1 o
+     end
+  | r => r
+  end.
+
+Lemma loop_tail_ext labels again :
+  (forall s1 L1 acc', extends s1 (fst (fst (again s1 L1 acc')))) ->
+  forall r acc, extends (fst (fst r)) (fst (fst (loop_tail labels again r acc))).
+Proof.
+  intros Hag [[s1 L1] r] acc. unfold loop_tail. cbn [fst].
+  destruct r as [o|v|]; try apply extends_refl.
+  destruct o as [|w|t|t|w]; cbn [fst]; try apply extends_refl; try apply Hag.
+  - destruct (mem t labels); apply extends_refl.
+  - destruct (mem t labels); [apply Hag|apply extends_refl].
+Qed.
+
+Lemma loop_tail_sync labels again :
+  (forall s1 L1 acc', extends s1 (fst (fst (again s1 L1 acc')))) ->
+  (forall a L acc' k, pre a -> halt_at a = k -> sagree k (again a L acc') (again (erase a) L acc')) ->
+  forall ra rb acc k, sagree k ra rb -> sagree k (loop_tail labels again ra acc) (loop_tail labels again rb acc).
+Proof.
+  intros Hext' Hag [[a1 L1] r1] [[b1 L1'] r1'] acc k H.
+  destruct H as [(Hq & Hk1 & Hb & HL & Hr)|(Hq & Hr & Hpf)]; cbn [fst snd] in *.
+  - subst b1 L1' r1'. unfold loop_tail. destruct r1 as [o|v|]; try (sfin Hq Hk1).
+    destruct o as [|w|t|t|w]; try (sfin Hq Hk1); try (apply Hag; assumption).
+    + destruct (mem t labels); sfin Hq Hk1.
+    + destruct (mem t labels); [apply Hag; assumption|sfin Hq Hk1].
+  - subst r1. right. cbn [loop_tail fst snd]. repeat split; auto.
+    eapply prefix_of_extends; [exact Hpf|]. apply (loop_tail_ext labels again Hext' (b1, L1', r1') acc).
+Qed.
+
+Definition dw_again n labels e body (s1 : state) (L1 : list label) (acc' : oval val) : st3 :=
+  match eval s1 e with
+  | (s', inr x) => (s', L1, OExn x)
+  | (s', inl v) => if truthy v then odowhile eval truthy exec n labels e body s' L1 acc' else (s', L1, ONorm acc')
+  end.
+Lemma odowhile_S n labels e body s L acc :
+  odowhile eval truthy exec (S n) labels e body s L acc
+  = loop_tail labels (dw_again n labels e body) (olist exec s L OEmpty body) acc.
+Proof.
+  cbn [odowhile]. unfold loop_tail, dw_again.
+  destruct (olist exec s L OEmpty body) as [[s1 L1] [o|v|]]; try reflexivity.
+Qed.
+
+Lemma dw_again_ext n labels e body s1 L1 acc' : extends s1 (fst (fst (dw_again n labels e body s1 L1 acc'))).
+Proof.
+  unfold dw_again. pose proof (eval_extends e s1) as H1.
+  destruct (eval s1 e) as [s' [v|x]]; cbn [fst] in *; [|exact H1].
+  destruct (truthy v); cbn [fst]; [|exact H1].
+  eapply extends_trans; [exact H1|]. apply (odowhile_extends exec Hext).
+Qed.
+
+Lemma odowhile_sync n labels e body : (forall x, In x body -> exec_ok x) ->
+  forall a L acc k, pre a -> halt_at a = k ->
+  sagree k (odowhile eval truthy exec n labels e body a L acc) (odowhile eval truthy exec n labels e body (erase a) L acc).
+Proof.
+  intros Hb. induction n as [|n IH]; intros a L acc k Hp Hk; [cbn [odowhile]; sfin Hp Hk|].
+  rewrite !odowhile_S. apply loop_tail_sync.
+  - intros; apply dw_again_ext.
+  - intros a' L' acc' k' Hp' Hk'. unfold dw_again.
+    pose proof (eval_sync e a' k' Hp' Hk') as H1.
+    destruct (eval a' e) as [a1 r1]; destruct (eval (erase a') e) as [b1 r1'].
+    destruct H1 as [(Hq & Hk1 & Hb1 & Hr)|(Hq & Hr & Hpf)]; cbn [fst snd] in *.
+    + subst b1 r1'. destruct r1 as [v|x]; [|sfin Hq Hk1].
+      destruct (truthy v); [apply IH; assumption|sfin Hq Hk1].
+    + subst r1. right. cbn [fst snd]. repeat split; auto.
+      destruct r1' as [v|x]; [|exact Hpf].
+      destruct (truthy v); [|exact Hpf].
+      eapply prefix_of_extends; [exact Hpf|]. apply (odowhile_extends exec Hext).
+  - apply olist_sync; assumption.
+Qed.
+
+Definition for_again n labels test upd body (s1 : state) (L1 : list label) (acc' : oval val) : st3 :=
+  match upd with
+  | Some u => match eval s1 u with
+              | (s2, inl _) => ofor eval truthy tick exec n labels test upd body s2 L1 acc'
+              | (s2, inr x) => (s2, L1, OExn x)
+              end
+  | None => ofor eval truthy tick exec n labels test upd body s1 L1 acc'
+  end.
+Definition for_go n labels test upd body L acc (s'' : state) : st3 :=
+  loop_tail labels (for_again n labels test upd body) (olist exec s'' L OEmpty body) acc.
+Definition for_run n labels test upd body L acc (s' : state) : st3 :=
+  match body with
+  | [] => match tick s' with
+          | (s'', Some x) => (s'', L, OExn x)
+          | (s'', None) => for_go n labels test upd body L acc s''
+          end
+  | _ => for_go n labels test upd body L acc s'
+  end.
+Lemma ofor_S n labels test upd body s L acc :
+  ofor eval truthy tick exec (S n) labels test upd body s L acc
+  = match test with
+    | Some e => match eval s e with
+                | (s', inr x) => (s', L, OExn x)
+                | (s', inl v) => if truthy v then for_run n labels test upd body L acc s' else (s', L, ONorm acc)
+                end
+    | None => for_run n labels test upd body L acc s
+    end.
+Proof.
+  cbn [ofor]. unfold for_run, for_go.
+  assert (H : forall s'', match olist exec s'' L OEmpty body with
+    | (s1, L1, ONorm o) =>
+          match o with
+          | OBrk t => if mem t labels then (s1, L1, ONorm acc) else (s1, L1, ONorm o)
+          | OCont t => if mem t labels then
+              match upd with
+              | Some u => match eval s1 u with
+                          | (s2, inl _) => ofor eval truthy tick exec n labels test upd body s2 L1 acc
+                          | (s2, inr x) => (s2, L1, OExn x)
+                          end
+              | None => ofor eval truthy tick exec n labels test upd body s1 L1 acc
+              end else (s1, L1, ONorm o)
+          | ORet _ => (s1, L1, ONorm o)
+          | OEmpty =>
+              match upd with
+              | Some u => match eval s1 u with
+                          | (s2, inl _) => ofor eval truthy tick exec n labels test upd body s2 L1 acc
+                          | (s2, inr x) => (s2, L1, OExn x)
+                          end
+              | None => ofor eval truthy tick exec n labels test upd body s1 L1 acc
+              end
+          | OVal _ =>
+              match upd with
+              | Some u => match eval s1 u with
+                          | (s2, inl _) => ofor eval truthy tick exec n labels test upd body s2 L1 o
+                          | (s2, inr x) => (s2, L1, OExn x)
+                          end
+              | None => ofor eval truthy tick exec n labels test upd body s1 L1 o
+              end
+          end
+    | r => r end = loop_tail labels (for_again n labels test upd body) (olist exec s'' L OEmpty body) acc).
+  { intros s''. unfold loop_tail, for_again. destruct (olist exec s'' L OEmpty body) as [[s1 L1] [o|v|]]; reflexivity. }
+  destruct test as [e|].
+  - destruct (eval s e) as [s' [v|x]]; [|reflexivity]. destruct (truthy v); [|reflexivity].
+    destruct body as [|b0 bs]; [destruct (tick s') as [s'' [x|]]; [reflexivity|]|]; apply H.
+  - destruct body as [|b0 bs]; [destruct (tick s) as [s'' [x|]]; [reflexivity|]|]; apply H.
+Qed.
+
+Lemma for_again_ext n labels test upd body s1 L1 acc' :
+  extends s1 (fst (fst (for_again n labels test upd body s1 L1 acc'))).
+Proof.
+  unfold for_again. destruct upd as [u|]; [|apply (ofor_extends exec Hext)].
+  pose proof (eval_extends u s1) as H1.
+  destruct (eval s1 u) as [s2 [v|x]]; cbn [fst] in *; [|exact H1].
+  eapply extends_trans; [exact H1|]. apply (ofor_extends exec Hext).
+Qed.
+Lemma for_go_ext n labels test upd body L acc s'' :
+  extends s'' (fst (fst (for_go n labels test upd body L acc s''))).
+Proof.
+  unfold for_go. eapply extends_trans; [apply (olist_extends exec Hext body s'' L OEmpty)|].
+  apply loop_tail_ext. intros; apply for_again_ext.
+Qed.
+Lemma for_run_ext n labels test upd body L acc s' :
+  extends s' (fst (fst (for_run n labels test upd body L acc s'))).
+Proof.
+  unfold for_run. destruct body as [|b0 bs]; [|apply for_go_ext].
+  pose proof (tick_extends s') as Ht. destruct (tick s') as [s'' [x|]]; cbn [fst] in *; [exact Ht|].
+  eapply extends_trans; [exact Ht|]. apply for_go_ext.
+Qed.
+
+Lemma ofor_sync n labels test upd body : (forall x, In x body -> exec_ok x) ->
+  forall a L acc k, pre a -> halt_at a = k ->
+  sagree k (ofor eval truthy tick exec n labels test upd body a L acc)
+           (ofor eval truthy tick exec n labels test upd body (erase a) L acc).
+Proof.
+  intros Hb. induction n as [|n IH]; intros a L acc k Hp Hk; [cbn [ofor]; sfin Hp Hk|].
+  rewrite !ofor_S.
+  assert (Hgo : forall a' L' acc' k', pre a' -> halt_at a' = k' ->
+            sagree k' (for_go n labels test upd body L' acc' a') (for_go n labels test upd body L' acc' (erase a'))).
+  { intros a' L' acc' k' Hp' Hk'. unfold for_go. apply loop_tail_sync.
+    - intros; apply for_again_ext.
+    - intros a2 L2 acc2 k2 Hp2 Hk2. unfold for_again. destruct upd as [u|]; [|apply IH; assumption].
+      pose proof (eval_sync u a2 k2 Hp2 Hk2) as H1.
+      destruct (eval a2 u) as [a1 r1]; destruct (eval (erase a2) u) as [b1 r1'].
+      destruct H1 as [(Hq & Hk1 & Hb1 & Hr)|(Hq & Hr & Hpf)]; cbn [fst snd] in *.
+      + subst b1 r1'. destruct r1 as [v|x]; [apply IH; assumption|sfin Hq Hk1].
+      + subst r1. right. cbn [fst snd]. repeat split; auto.
+        destruct r1' as [v|x]; [|exact Hpf].
+        eapply prefix_of_extends; [exact Hpf|]. apply (ofor_extends exec Hext).
+    - apply olist_sync; assumption. }
+  assert (Hrun : forall a' L' acc' k', pre a' -> halt_at a' = k' ->
+            sagree k' (for_run n labels test upd body L' acc' a') (for_run n labels test upd body L' acc' (erase a'))).
+  { intros a' L' acc' k' Hp' Hk'. unfold for_run. destruct body as [|b0 bs]; [|apply Hgo; assumption].
+    destruct (Z.eq_dec (polls a' + 1) (halt_at a')) as [Hh|Hn].
+    - rewrite (tick_dohalt a' Hh), (tick_erase a' (proj1 Hp')). right. cbn [fst snd halted polls out].
+      repeat split; [lia|]. apply (prefix_of_extends _ (erase (bump a'))); [apply prefix_refl|]. apply for_go_ext.
+    - rewrite (tick_nohalt a' Hn), (tick_erase a' (proj1 Hp')).
+      apply Hgo; [apply pre_bump; assumption|rewrite halt_bump; assumption]. }
+  destruct test as [e|]; [|apply Hrun; assumption].
+  pose proof (eval_sync e a k Hp Hk) as H1.
+  destruct (eval a e) as [a1 r1]; destruct (eval (erase a) e) as [b1 r1'].
+  destruct H1 as [(Hq & Hk1 & Hb1 & Hr)|(Hq & Hr & Hpf)]; cbn [fst snd] in *.
+  - subst b1 r1'. destruct r1 as [v|x]; [|sfin Hq Hk1].
+    destruct (truthy v); [apply Hrun; assumption|sfin Hq Hk1].
+  - subst r1. right. cbn [fst snd]. repeat split; auto.
+    destruct r1' as [v|x]; [|exact Hpf].
+    destruct (truthy v); [|exact Hpf].
+    eapply prefix_of_extends; [exact Hpf|]. apply for_run_ext.
+Qed.
+
 Lemma oblock_sync l : (forall x, In x l -> exec_ok x) ->
   forall a L k, pre a -> halt_at a = k ->
   sagree k (oblock exec a L l) (oblock exec (erase a) L l).
@@ -278,7 +496,7 @@ Proof.
   set (a1 := bump a) in *.
   assert (Hok : forall y, notry y = true -> exec_ok (exec_o fuel) y).
   { intros y Hy a' L' k' Hp' Hk'. apply IH; assumption. }
-  destruct x as [e|l|e s1 s2|e body|l|l|e|l x|e|b c f].
+  destruct x as [e|l|e s1 s2|e body|body e|init test upd body|l|l|e|l x|e|b c f].
   - pose proof (eval_sync e a1 k Hp1 Hk1) as H1.
     destruct (eval a1 e) as [a2 r2]; destruct (eval (erase a1) e) as [b2 r2'].
     destruct H1 as [(Hq & Hk2 & Hb & Hr)|(Hq & Hr & Hpf)]; cbn [fst snd] in *.
@@ -299,6 +517,32 @@ Proof.
       destruct s2 as [s2|]; [eapply prefix_of_extends; [exact Hpf|]; apply exec_extends|exact Hpf].
   - rewrite notry_while in Hnt. apply (owhile_sync _ (exec_extends fuel)); auto.
     intros y Hy. apply Hok. eapply notry_list_In; eassumption.
+  - rewrite notry_dowhile in Hnt. apply (odowhile_sync _ (exec_extends fuel)); auto.
+    intros y Hy. apply Hok. eapply notry_list_In; eassumption.
+  - rewrite notry_for in Hnt.
+    assert (Hf : forall a' k', pre a' -> halt_at a' = k' ->
+       sagree k' (ofor eval truthy tick (exec_o fuel) fuel (L ++ [0%nat]) test upd body a' [] OEmpty)
+                 (ofor eval truthy tick (exec_o fuel) fuel (L ++ [0%nat]) test upd body (erase a') [] OEmpty)).
+    { intros a' k' Hp' Hk'. apply (ofor_sync _ (exec_extends fuel)); auto.
+      intros y Hy. apply Hok. eapply notry_list_In; eassumption. }
+    destruct (Z.eq_dec (polls a1 + 1) (halt_at a1)) as [Hhq|Hnq].
+    { rewrite (tick_dohalt a1 Hhq), (tick_erase a1 (proj1 Hp1)). right. cbn [fst snd halted polls out].
+      repeat split; [lia|]. apply (prefix_of_extends _ (erase (bump a1))); [apply prefix_refl|].
+      destruct init as [i|]; [|apply (ofor_extends _ (exec_extends fuel))].
+      pose proof (eval_extends i (erase (bump a1))) as He.
+      destruct (eval (erase (bump a1)) i) as [b2 [v|x']]; cbn [fst] in *; [|exact He].
+      eapply extends_trans; [exact He|]. apply (ofor_extends _ (exec_extends fuel)). }
+    rewrite (tick_nohalt a1 Hnq), (tick_erase a1 (proj1 Hp1)).
+    pose proof (pre_bump a1 Hp1 Hnq) as Hpq. pose proof (halt_bump a1) as Hkq. rewrite Hk1 in Hkq.
+    set (aq := bump a1) in *.
+    destruct init as [i|]; [|apply Hf; assumption].
+    pose proof (eval_sync i aq k Hpq Hkq) as H1.
+    destruct (eval aq i) as [a2 r2]; destruct (eval (erase aq) i) as [b2 r2'].
+    destruct H1 as [(Hq & Hk2 & Hb & Hr)|(Hq & Hr & Hpf)]; cbn [fst snd] in *.
+    + subst b2 r2'. destruct r2 as [v|x']; [apply Hf; assumption|sfin Hq Hk2].
+    + subst r2. right. cbn [fst snd]. repeat split; auto.
+      destruct r2' as [v|x']; [|exact Hpf].
+      eapply prefix_of_extends; [exact Hpf|]. apply (ofor_extends _ (exec_extends fuel)).
   - sfin Hp1 Hk1.
   - sfin Hp1 Hk1.
   - pose proof (eval_sync e a1 k Hp1 Hk1) as H1.
